@@ -109,6 +109,44 @@ pub fn run(opts: &Opts) -> i32 {
         }
         out.emit3(&case, &res, &verdict);
     }
+    // DiskIO::write_sectors_sync with lengths that are not whole blocks (the store pads everything it
+    // writes; a user of the public type need not): exactly the slice's bytes reach the file, what lies
+    // behind them in the block stays as it was; under AddressSanitizer a read past the slice is reported
+    {
+        use feoxdb::storage::io::DiskIO;
+        use std::io::{Read, Seek, SeekFrom, Write};
+        let path = format!("{dir}/abuf_diskio_{}.bin", std::process::id());
+        let mut verdict = "ok".to_string();
+        let run = || -> Result<(), String> {
+            let mut f = std::fs::OpenOptions::new().read(true).write(true).create(true).truncate(true).open(&path).map_err(|e| e.to_string())?;
+            f.write_all(&vec![0xEEu8; 64 * 4096]).map_err(|e| e.to_string())?;
+            f.sync_all().map_err(|e| e.to_string())?;
+            let file = std::sync::Arc::new(f.try_clone().map_err(|e| e.to_string())?);
+            let disk = DiskIO::new(file, false).map_err(|e| format!("DiskIO::new {e}"))?;
+            for (i, len) in [1usize, 100, 511, 513, 4095, 4097, 5000, 8191, 12289].into_iter().enumerate() {
+                // an exact-size heap slice: anything read beyond it is somebody else's memory
+                let data: Vec<u8> = (0..len).map(|j| (j % 199) as u8 + 1).collect::<Vec<u8>>().into_boxed_slice().into_vec();
+                let sector = 16 + 4 * i as u64;
+                disk.write_sectors_sync(sector, &data).map_err(|e| format!("write_sectors_sync(len={len}) {e}"))?;
+                let blocks = len.div_ceil(4096);
+                let mut back = vec![0u8; blocks * 4096];
+                f.seek(SeekFrom::Start(sector * 4096)).map_err(|e| e.to_string())?;
+                f.read_exact(&mut back).map_err(|e| e.to_string())?;
+                if back[..len] != data[..] {
+                    return Err(format!("write_sectors_sync(len={len})-did-not-write-the-slice"));
+                }
+                if back[len..].iter().any(|b| *b != 0xEE) {
+                    return Err(format!("write_sectors_sync(len={len})-wrote-bytes-that-are-not-in-the-slice"));
+                }
+            }
+            Ok(())
+        };
+        if let Err(e) = run() {
+            verdict = format!("FAIL {e}");
+        }
+        let _ = std::fs::remove_file(&path);
+        out.emit3("note abuf-diskio-odd-lengths", "note", &verdict);
+    }
     // the allocator's small/large split, in a child process (a mismatched free may abort it)
     for k in 0..3u64 {
         let outp = crate::img::run_child(&["abufallocchild".into(), format!("seed={}", seed + k)], 120).unwrap_or_else(|| "SPAWN-FAILED".into());
